@@ -95,6 +95,27 @@ def gen_cases(ctx):
                 b = ("f", bv) if kb == "f" else c03.mk(rng, 1 if kb == "d" else 2, lay(rng), re=bv)
                 cases.append(("numbin", 0, 10, [12, 10] + dg.enc_number(a) + dg.enc_number(b),
                               "Number(%s) abs_sub Number(%s), values %r, %r" % (KN[ka], KN[kb], av, bv), (av, bv)))
+    # ---- ordering through the Number container: a float on either side of a Number of each kind, and Number with Number of
+    #      the same kind / with a float inside (< <= > >=): must be the float comparison of the values
+    for ka in ("f", "d", "d2"):
+        for oc in (6, 7, 8, 9):
+            for side in (0, 1):
+                for _ in range(8 if th else 4 * ctx.scale):
+                    av = val(rng)
+                    f = av if rng.random() < 0.25 else val(rng)
+                    a = ("f", av) if ka == "f" else c03.mk(rng, 1 if ka == "d" else 2, lay(rng), re=av)
+                    cases.append(("numord", 0, oc, [13, oc, side] + dg.enc_number(a) + dg.enc_f(f),
+                                  ("Number(%s) %s f64" if side == 0 else "f64 %s Number(%s)") % ((KN[ka], BIN[oc]) if side == 0 else (BIN[oc], KN[ka]))
+                                  + ", values %r, %r" % (av, f), (av, f) if side == 0 else (f, av)))
+            for kb in ("f", ka):
+                for _ in range(6 if th else 3 * ctx.scale):
+                    av = val(rng)
+                    bv = av if rng.random() < 0.25 else val(rng)
+                    a = ("f", av) if ka == "f" else c03.mk(rng, 1 if ka == "d" else 2, lay(rng), re=av)
+                    b = ("f", bv) if kb == "f" else c03.mk(rng, 1 if kb == "d" else 2, lay(rng), re=bv)
+                    for x, y, xv, yv in ((a, b, av, bv), (b, a, bv, av)):
+                        cases.append(("numord", 0, oc, [12, oc] + dg.enc_number(x) + dg.enc_number(y),
+                                      "Number(%s) %s Number(%s), values %r, %r" % (x[0], BIN[oc], y[0], xv, yv), (xv, yv)))
     # ---- is_positive / is_negative on the Number container (sign BIT of the value: -0.0 is negative)
     for ka in ("f", "d", "d2"):
         for oc in (13, 14):
@@ -113,7 +134,7 @@ def schema_for(tag, kind, oc):
     d = ["dual"] if kind == 1 else ["dual2"]
     if tag == "numbin":
         return ["number"]
-    if tag == "numun":
+    if tag in ("numun", "numord"):
         return ["int"]
     if tag in ("bin", "mix"):
         return d if (oc <= 4 or oc == 10) else ["int"]
@@ -150,7 +171,7 @@ def run(ctx):
         tag, kind, oc, e, desc = c[:5]
         meta = c[5] if len(c) > 5 else None
         ctx.evaluations += 1
-        ctx.count("%s %s" % (tag, BIN[oc] if tag in ("bin", "mix", "numbin") else UN[oc] if tag == "un" else
+        ctx.count("%s %s" % (tag, BIN[oc] if tag in ("bin", "mix", "numbin", "numord") else UN[oc] if tag == "un" else
                              ("is_positive" if oc == 13 else "is_negative") if tag == "numun" else "sum"))
         if "-" in desc.split("values")[-1] or tag == "sum":
             ctx.nontriv(tuple(e))
@@ -171,6 +192,15 @@ def run(ctx):
                     desc, a, int(want)),
                     {"case": e, "what_op": desc, "implementation": a, "expected_from_sign_bit": int(want), "direct_test": True,
                      "harness_cmd": "echo 'c %s' | harness/target/release/rlharness dual" % " ".join(str(t) for t in e)})
+        # DIRECT TEST: ordering through the Number container is the float comparison of the two values
+        if tag == "numord":
+            x, y = meta
+            want = {6: x < y, 7: x <= y, 8: x > y, 9: x >= y}[oc]
+            if a != [0, int(want)]:
+                ctx.violation("ordering through the Number container does not agree with float comparison on %s: implementation %s, "
+                              "floats say %s" % (desc, a, int(want)),
+                              {"case": e, "what_op": desc, "implementation": a, "expected_from_floats": int(want), "direct_test": True,
+                               "harness_cmd": "echo 'c %s' | harness/target/release/rlharness dual" % " ".join(str(t) for t in e)})
         if not ok:
             ctx.violation("the implementation disagrees with the proved model on %s: implementation %s, model %s" % (
                 desc, str(dg.plain(da))[:300], str(dg.plain(db))[:300]),
